@@ -47,7 +47,7 @@ class CallMixin(object):
         model = self.ctx.num.name
         for q in (f.dyn_qualname(), f.qualname):
             for key, c in REG.contracts.items():
-                if c.qualname == q and c.model == model and not c.tag_is_lemma:
+                if c.qualname == q and c.model == model and not c.tag_is_lemma and not c.ghost.get("unit_only"):
                     return c
         return None
 
